@@ -1039,13 +1039,20 @@ where
         if let Some(comments) = &self.comments {
             comments.with_leading(span.lo, |comments| {
                 let pragma = comments.iter().find_map(|comment| {
-                    let trimmed = comment.text.trim();
-                    trimmed
-                        .strip_prefix('*')
-                        .unwrap_or(trimmed)
-                        .trim()
-                        .strip_prefix("@jsx")
-                        .map(str::trim)
+                    // `@jsx` must be followed by whitespace and a name;
+                    // `@jsxImportSource`, `@jsxRuntime` and `@jsxFrag` aren't pragmas
+                    comment
+                        .text
+                        .match_indices("@jsx")
+                        .find_map(|(index, matched)| {
+                            let rest = &comment.text[index + matched.len()..];
+                            let name = rest.trim_start();
+                            if name.len() == rest.len() {
+                                None
+                            } else {
+                                name.split_whitespace().next()
+                            }
+                        })
                 });
                 if let Some(pragma) = pragma {
                     self.pragma = Some(pragma.to_string());
